@@ -251,6 +251,9 @@ VERUS = {
     'iterhash': dict(props=['C06', 'C02', 'C13'], tier='quick',
                      desc='RawIterHashInner::next (the probe-sequence iterator behind HashTable::iter_hash / iter_hash_mut) on extracted text, for every table size and both widths: every yielded index is a bucket of the table and a FULL one (so the reference handed out is in bounds and to a live element), the group load stays inside the control array, the iteration ends only at a window holding an EMPTY byte, and it terminates (probe-cycle theorem + load factor)',
                      paired={}),
+    'many': dict(props=['C15', 'C05'], tier='quick',
+                 desc='RawTable::get_many_mut on extracted text, pointers into the table kept as bucket indices, for any N and ANY result of the N lookups (unlawful equality closures included): turning the N pointers into N exclusive references requires that no two of them are the same bucket -- the precondition of that conversion -- and the duplicate check of the real text establishes it on every path that returns (the other path panics)',
+                 paired={}),
     'assoc': dict(props=['C01', 'C06'], tier='quick',
                   desc='lemma-only unit over the contracts of units ctrl / rehash / resize: what rehash_in_place and resize_inner establish (every FULL bucket placed) is the reachability invariant F2 that insert and erase are proved to preserve; and lookup BY KEY: for a lawful Eq (the closure accepts exactly the buckets holding an element with key k) and a lawful Hash (such elements were stored under the probed hash), find_inner answers Some exactly when an element with key k is stored, and the bucket it returns holds one',
                   paired={}),
